@@ -34,7 +34,7 @@ def BOUNDS(tier):
 
 
 def REQUIRED_COVER(tier):
-    return {'uint:256', 'int:257', 'var_int:topbit', 'snake:multi', 'addr:anycast', 'addr:ext', 'addr:route', 'addr:history', 'failing-peek', 'seq:depth2', 'dict', 'string:utf8', 'snake:long'}
+    return {'uint:256', 'int:257', 'var_int:topbit', 'snake:multi', 'addr:anycast', 'addr:ext', 'addr:route', 'addr:history', 'failing-peek', 'builder-readback', 'seq:depth2', 'dict', 'string:utf8', 'snake:long'}
 
 
 HASH32 = 'ed1691307050047117b998b561d8de82d31fbf84910ced6eb5fc92e7485ef8a7'
@@ -321,6 +321,55 @@ def shard_failing_peeks(rec):
     rec.covered('failing-peek')
 
 
+def shard_builder_readback(rec):
+    """wave 10: the builder is read back through to_slice() - and goes on being used.  For every typed value: store it (and a guard field),
+    take a slice of the BUILDER, load everything back from that slice, then: the builder's cell still holds the stored bits, a second
+    to_slice() reads the same values again, and a further store lands after them."""
+    from pytoniq_core.boc import Builder
+    descs = [['uint', 200, 8], ['int', -3, 7], ['var_uint', 300, 4], ['var_int', -129, 5], ['coins', 10 ** 9], ['bits', '10110'], ['bytes', 'deadbeef'],
+             ['addr_none'], ['addr_ext', 0x1ff, 9], ['addr_std', -1, HASH32, None], ['addr_std', 0, HASH32, [3, 5]], ['maybe_ref', 9], ['dict', 77], ['ref', 1], ['bit', 1]]
+    for d in descs:
+        for pre in (0, 5):
+            rec.case('builder-readback')
+            rec.state(('readback', str(d), pre))
+            rec.nontriv(('readback', str(d), pre))
+            op = typed.mk(*d)
+            guard = typed.mk('uint', 0x2a, 6)
+            b = Builder()
+            if pre:
+                b.store_uint(21, pre)
+            op.store(b)
+            guard.store(b)
+            want_bits = ('10101' if pre else '') + op.bits + guard.bits
+            rec.trans(4)
+            args = {'desc': d, 'pre': pre}
+            try:
+                for round_ in (1, 2):
+                    sl = b.to_slice()
+                    if pre:
+                        sl.load_uint(pre)
+                    v = op.load(sl)
+                    g = guard.load(sl)
+                    if not op.eq(v, op.value) or g != 0x2a or sl.remaining_bits or sl.remaining_refs:
+                        rec.violation('builder-readback:value', f'{d}: read back through Builder.to_slice() (time #{round_}) gives {str(v)[:80]} / guard {g}, {sl.remaining_bits} bits left', 'shard_builder_readback', args)
+                        break
+                    got = b.end_cell().bits.to01()
+                    if got != want_bits or len(b.bits) != len(want_bits) or len(b.refs) != op.nrefs:
+                        rec.violation('builder-readback:builder-changed', f'{d}: after its slice was read (time #{round_}) the builder holds {len(b.bits)} bits / {len(b.refs)} refs '
+                                      f'instead of {len(want_bits)} / {op.nrefs} (reading a slice of the builder changed the builder)', 'shard_builder_readback', args)
+                        break
+                else:
+                    b.store_uint(5, 3)
+                    if b.end_cell().bits.to01() != want_bits + '101':
+                        rec.violation('builder-readback:store-after', f'{d}: a store after the read-back does not land after the stored fields', 'shard_builder_readback', args)
+                    else:
+                        rec.outcome('ok')
+                        rec.trace()
+            except Exception as e:
+                rec.violation('builder-readback:raises', f'{d}: {exc_name(e)}: {e}', 'shard_builder_readback', args)
+    rec.covered('builder-readback')
+
+
 # ------------------------------------------------------------------ sequences (S)
 ALPHABET = [
     ['bit', 1], ['bool', 0], ['uint', 0, 0], ['int', 0, 0], ['uint', 1, 1], ['uint', 200, 8], ['uint', (1 << 64) - 1, 64], ['uint', 1 << 255, 256],
@@ -386,6 +435,7 @@ def shards(tier, seed):
             out.append({'fn': 'shard_var', 'args': {'lb': lb, 'signed': signed, 'small': small}, 'prio': 2})
     out.append({'fn': 'shard_coins', 'args': {}})
     out.append({'fn': 'shard_failing_peeks', 'args': {}})
+    out.append({'fn': 'shard_builder_readback', 'args': {}})
     out.append({'fn': 'shard_bits_bytes', 'args': {'part': 0}})
     out.append({'fn': 'shard_bits_bytes', 'args': {'part': 1}})
     for lo in range(0, 1024, 64):
